@@ -2,5 +2,12 @@
 //! the privately imported `bds::*`, `ehs::*`, `country::*` items are callable.
 #![allow(dead_code, unused_imports, unused_variables, unused_mut, clippy::all)]
 
+pub(crate) mod rows;
+mod lemmas;
+mod c03;
+mod c04;
+mod c05;
 mod c06;
+mod c09;
+mod c12;
 mod c17;
